@@ -96,7 +96,7 @@ def cases(tier, seed):
     for i in range(n):
         for j in range(i + 1, n):
             yield {"space": "exhaustive", "f": "atoms", "i": i, "j": j}
-    nb, per = (16, 220) if tier == "quick" else (128, 400)
+    nb, per = (16, 600) if tier == "quick" else (128, 600)
     for _ in range(nb):
         yield {"f": "xproc", "cs": rng.randrange(2 ** 31), "n": per}
     fams = sorted(V.FAMILIES)
@@ -158,6 +158,11 @@ def _blame(ctx, v, v2):
 
     try:
         c1, c2 = V.children(v), V.children(v2)
+        if type(v) in (set, frozenset) and type(v2) is type(v):
+            # elements are matched by value, the iteration orders may differ
+            other = {e: e for e in v2}
+            c1 = [e for e in v if e == e and e in other]
+            c2 = [other[e] for e in c1]
         if len(c1) == len(c2):
             for a, b in zip(c1, c2):
                 if type(a) is type(b) and _tok(ctx, a) != _tok(ctx, b):
@@ -166,7 +171,15 @@ def _blame(ctx, v, v2):
         pass
     except Exception:  # noqa: BLE001 - blame is best effort, never a verdict
         pass
-    return V.feature_of(v)
+    feat = V.feature_of(v)
+    try:
+        # values that dask tokenizes through pickle: does pickle itself distinguish the two equal values?
+        if (type(v) is frozenset or "object-array" in feat or feat in ("function", "lambda", "partial")) \
+                and pickle.dumps(v, protocol=5) != pickle.dumps(v2, protocol=5):
+            feat += "&pickle-bytes-differ"
+    except Exception:  # noqa: BLE001
+        pass
+    return feat
 
 
 def _short(d, n=600):
